@@ -380,9 +380,6 @@ pub fn run(tier: &str) -> i32 {
     let bases: Vec<std::path::PathBuf> = (0..3).map(prepare_base).collect();
     let base_names = ["fresh", "data-in-tables", "journal-0-rotated-away"];
     let mut jobs: Vec<(usize, Option<Vec<u8>>)> = vec![];
-    for m in marker_cases(if q { 4 } else { 5 }, !q) {
-        jobs.push((0, Some(m)));
-    }
     let reduced: Vec<Option<Vec<u8>>> = vec![
         None,
         Some(vec![]),
@@ -400,6 +397,15 @@ pub fn run(tier: &str) -> i32 {
     for b in 0..3 {
         for r in &reduced {
             jobs.push((b, r.clone()));
+        }
+    }
+    for m in marker_cases(3, false) {
+        jobs.push((0, Some(m)));
+    }
+    let required_markers = jobs.len();
+    for m in marker_cases(if q { 4 } else { 5 }, !q) {
+        if m.len() > 3 {
+            jobs.push((0, Some(m)));
         }
     }
     let tally = Mutex::new(std::collections::BTreeMap::<String, u64>::new());
@@ -529,8 +535,11 @@ pub fn run(tier: &str) -> i32 {
         "a correct header followed by extra bytes is outside what the property defines: either outcome is accepted and counted".into(),
         "that the journal is synced by the drop is decided behaviourally by C09's drop fence".into(),
     ];
-    if !exhaustive {
-        o.machinery_errors.push("time cap hit before the enumeration finished".into());
+    if completed_depth < 3 {
+        o.machinery_errors.push(format!("handle programs completed only depth {completed_depth} < 3"));
+    }
+    if mdone < required_markers {
+        o.machinery_errors.push(format!("marker sweep: time cap hit after {mdone} cases, before the required core of {required_markers}"));
     }
     let mut f = findings.into_inner().unwrap();
     f.sort_by_key(|x| (x.sig.clone(), x.program.len()));
